@@ -143,4 +143,180 @@ theorem and_himask (x : Nat) (hx : x < 2 ^ 64) : x &&& 0xFFFFFFC000000000 = x / 
   rw [h4] at h3
   omega
 
+/-! ### Estimate -/
+
+/-- `Estimate` as a closed formula on naturals (all inputs): 2^38 = 274877906944 is one period of
+    the 24-bit field in NTP units, 2^14 = 16384 its resolution, 2^64 − 2^38 = 18446743798831644672 -/
+def estimateNat (ts recv : Nat) : Nat :=
+  timeNat
+    (if ntpNat recv < ntpNat recv / 274877906944 * 274877906944 + ts % 16777216 * 16384
+     then (18446743798831644672 + (ntpNat recv / 274877906944 * 274877906944 + ts % 16777216 * 16384)) %
+        18446744073709551616
+     else ntpNat recv / 274877906944 * 274877906944 + ts % 16777216 * 16384)
+
+theorem splice (S Rf : Nat) (h1 : S ≤ Rf) (h2 : Rf < S + 274877906944) (h3 : S < 18446744073709551616) :
+    (if Rf % 18446744073709551616 <
+        Rf % 18446744073709551616 / 274877906944 * 274877906944 + S % 274877906944
+     then (18446743798831644672 + (Rf % 18446744073709551616 / 274877906944 * 274877906944 + S % 274877906944)) %
+        18446744073709551616
+     else Rf % 18446744073709551616 / 274877906944 * 274877906944 + S % 274877906944) = S := by
+  split <;> omega
+
+/-- `ntpNat` without the wrap of the seconds: the NTP time as an unbounded number -/
+def ntpFull (u : Nat) : Nat := (u / 1000000000 + 2208988800) * 4294967296 + u % 1000000000 * 4294967296 / 1000000000
+
+theorem ntpNat_eq_full_mod (u : Nat) : ntpNat u = ntpFull u % 18446744073709551616 := by
+  unfold ntpNat ntpFull
+  have a := div_bounds (u % 1000000000 * 4294967296) 1000000000 (by decide)
+  have hr : u % 1000000000 < 1000000000 := Nat.mod_lt _ (by decide)
+  have hf : u % 1000000000 * 4294967296 / 1000000000 < 4294967296 := by omega
+  clear a hr
+  omega
+
+theorem ntp_diff_lin (qs rs fs qr rr fr delay : Nat)
+    (a1 : 1000000000 * fs ≤ rs * 4294967296) (a2 : rs * 4294967296 < 1000000000 * fs + 1000000000)
+    (b1 : 1000000000 * fr ≤ rr * 4294967296) (b2 : rr * 4294967296 < 1000000000 * fr + 1000000000)
+    (e : 1000000000 * qs + rs + delay = 1000000000 * qr + rr) :
+    (qs + 2208988800) * 4294967296 + fs ≤ (qr + 2208988800) * 4294967296 + fr ∧
+    1000000000 * (((qr + 2208988800) * 4294967296 + fr) - ((qs + 2208988800) * 4294967296 + fs)) <
+      delay * 4294967296 + 1000000000 := by
+  omega
+
+/-- the NTP images of two instants `delay` apart are less than `delay·2^32/10^9 + 1` apart, and ordered -/
+theorem ntpFull_diff (send delay : Nat) :
+    ntpFull send ≤ ntpFull (send + delay) ∧
+    1000000000 * (ntpFull (send + delay) - ntpFull send) < delay * 4294967296 + 1000000000 := by
+  unfold ntpFull
+  have a := div_bounds (send % 1000000000 * 4294967296) 1000000000 (by decide)
+  have b := div_bounds ((send + delay) % 1000000000 * 4294967296) 1000000000 (by decide)
+  have e1 := Nat.div_add_mod send 1000000000
+  have e2 := Nat.div_add_mod (send + delay) 1000000000
+  exact ntp_diff_lin _ _ _ _ _ _ delay a.1 a.2 b.1 b.2 (by rw [e1, e2])
+
+/-- truncating the fraction to the 2^-18 s grid and converting back loses at most 3815 ns -/
+theorem grid_lin (rs fs g : Nat)
+    (a1 : 1000000000 * fs ≤ rs * 4294967296) (a2 : rs * 4294967296 < 1000000000 * fs + 1000000000)
+    (c1 : 4294967296 * g ≤ fs / 16384 * 16384 * 1000000000)
+    (c2 : fs / 16384 * 16384 * 1000000000 < 4294967296 * g + 4294967296) :
+    g ≤ rs ∧ rs ≤ g + 3815 := by
+  omega
+
+theorem grid_parts (q f : Nat) :
+    (q * 4294967296 + f) / 16384 * 16384 = q * 4294967296 + f / 16384 * 16384 := by
+  omega
+
+theorem grid_field (x : Nat) : x / 16384 % 16777216 * 16384 = x / 16384 * 16384 % 274877906944 := by
+  rw [show (274877906944 : Nat) = 16777216 * 16384 from rfl, Nat.mul_mod_mul_right]
+
+theorem est_lin1 (send rs f : Nat) (hs : send < 2085978496 * 1000000000) (hf : f < 4294967296)
+    (e : 1000000000 * (send / 1000000000) + rs = send) :
+    2208988800 ≤ send / 1000000000 + 2208988800 ∧ send / 1000000000 + 2208988800 < 4294967296 ∧
+    f / 16384 * 16384 < 4294967296 ∧
+    (send / 1000000000 + 2208988800) * 4294967296 + f / 16384 * 16384 < 18446744073709551616 := by
+  omega
+
+theorem est_lin2 (send q rs g : Nat) (e : 1000000000 * q + rs = send) (h : g ≤ rs ∧ rs ≤ g + 3815) :
+    (q + 2208988800 - 2208988800) * 1000000000 + g ≤ send ∧
+    send ≤ (q + 2208988800 - 2208988800) * 1000000000 + g + 3815 := by
+  omega
+
+theorem est_lin3 (S S' R delay : Nat) (hS' : S' = S / 16384 * 16384)
+    (d : S ≤ R ∧ 1000000000 * (R - S) < delay * 4294967296 + 1000000000)
+    (hd : delay * 262144 + 1000000000 < 64 * 1000000000 * 262144) :
+    S' ≤ R ∧ R < S' + 274877906944 := by
+  omega
+
+/-- the core of `c18_estimate` on naturals -/
+theorem estimate_nat (send delay : Nat) (hs : send < 2085978496 * 1000000000)
+    (hd : delay * 262144 + 1000000000 < 64 * 1000000000 * 262144) :
+    estimateNat (ntpNat send / 16384) (send + delay) ≤ send ∧
+    send ≤ estimateNat (ntpNat send / 16384) (send + delay) + 3815 := by
+  have hS : ntpNat send = ntpFull send := by rw [ntpNat_parts send hs]; rfl
+  have a := div_bounds (send % 1000000000 * 4294967296) 1000000000 (by decide)
+  have fr := frac_roundtrip (send % 1000000000) (Nat.mod_lt _ (by decide))
+  have e1 := Nat.div_add_mod send 1000000000
+  obtain ⟨k1, k2, k3, k4⟩ := est_lin1 send _ _ hs fr.1 e1
+  have c := div_bounds (send % 1000000000 * 4294967296 / 1000000000 / 16384 * 16384 * 1000000000) 4294967296 (by decide)
+  have fin := est_lin2 send _ _ _ e1 (grid_lin _ _ _ a.1 a.2 c.1 c.2)
+  -- the grid point below the send time
+  have hS' : ntpFull send / 16384 * 16384 =
+      (send / 1000000000 + 2208988800) * 4294967296 + send % 1000000000 * 4294967296 / 1000000000 / 16384 * 16384 :=
+    grid_parts _ _
+  -- distance to the receive time
+  obtain ⟨hlo, hhi⟩ := est_lin3 (ntpFull send) _ _ delay rfl (ntpFull_diff send delay) hd
+  have hlt : ntpFull send / 16384 * 16384 < 18446744073709551616 := by
+    rw [hS']; exact k4
+  have hsp := splice _ _ hlo hhi hlt
+  unfold estimateNat
+  rw [hS, ntpNat_eq_full_mod (send + delay), grid_field, hsp, hS', timeNat_parts _ _ k1 k2 k3]
+  exact fin
+theorem ntpNat_lt (u : Nat) : ntpNat u < 18446744073709551616 := by
+  unfold ntpNat
+  have a := div_bounds (u % 1000000000 * 4294967296) 1000000000 (by decide)
+  have : u % 1000000000 < 1000000000 := Nat.mod_lt _ (by decide)
+  have : (u / 1000000000 + 2208988800) % 4294967296 < 4294967296 := Nat.mod_lt _ (by decide)
+  omega
+
+theorem estimate_toNat (ts recv : UInt64) : (estimate ts recv).toNat = estimateNat ts.toNat recv.toNat := by
+  have hr := ntpNat_lt recv.toNat
+  have hntp : ((toNtpTime recv &&& 0xFFFFFFC000000000) ||| ((ts &&& 0xFFFFFF) <<< (14 : UInt64))).toNat =
+      ntpNat recv.toNat / 274877906944 * 274877906944 + ts.toNat % 16777216 * 16384 := by
+    rw [UInt64.toNat_or, UInt64.toNat_and, UInt64.toNat_shiftLeft, UInt64.toNat_and, toNtpTime_toNat,
+      show (0xFFFFFFC000000000 : UInt64).toNat = 0xFFFFFFC000000000 from rfl, and_himask _ hr,
+      show (0xFFFFFF : UInt64).toNat = 2 ^ 24 - 1 from rfl, Bits.nat_and_mask,
+      show (14 : UInt64).toNat % 64 = 14 from rfl, Nat.shiftLeft_eq]
+    have h1 : ts.toNat % 2 ^ 24 * 2 ^ 14 % 2 ^ 64 = ts.toNat % 16777216 * 16384 := by omega
+    have h2 : ts.toNat % 16777216 * 16384 < 2 ^ 38 := by omega
+    rw [h1, mul_or _ _ 38 h2]
+  unfold estimate estimateNat
+  simp only []
+  by_cases hlt : toNtpTime recv < ((toNtpTime recv &&& 0xFFFFFFC000000000) ||| ((ts &&& 0xFFFFFF) <<< (14 : UInt64)))
+  · have hlt' := UInt64.lt_iff_toNat_lt.mp hlt
+    rw [hntp, toNtpTime_toNat] at hlt'
+    rw [if_pos hlt, if_pos hlt', toTime_toNat, UInt64.toNat_sub, hntp,
+      show ((0x1000000 : UInt64) <<< (14 : UInt64)).toNat = 274877906944 from rfl]
+  · have hlt' : ¬ _ := fun h => hlt (UInt64.lt_iff_toNat_lt.mpr h)
+    rw [hntp, toNtpTime_toNat] at hlt'
+    rw [if_neg hlt, if_neg hlt', toTime_toNat, hntp]
+
+theorem estimateNat_mod (x r : Nat) : estimateNat (x % 16777216) r = estimateNat x r := by
+  unfold estimateNat; rw [Nat.mod_mod]
+
+theorem int_fin (s : Int) (n E k : Nat) (hs : (n : Int) = s) (hn : E ≤ n ∧ n ≤ E + k) :
+    0 ≤ s - (E : Int) ∧ s - (E : Int) ≤ k := by
+  omega
+
+theorem wf_nat (s d : Int) (n m : Nat) (hs : (n : Int) = s) (hd : (m : Int) = d)
+    (s1 : s < 2085978496000000000) (d1 : d * 2 ^ 18 + 1000000000 < 64 * 1000000000 * 2 ^ 18) :
+    n < 2085978496 * 1000000000 ∧ m * 262144 + 1000000000 < 64 * 1000000000 * 262144 ∧
+    (n + m) % 2 ^ 64 = n + m := by
+  omega
+
+open Rtp.Pred.C18 in
+theorem estimate_ok (send delay : Int64) (h : estimateWF send delay = true) :
+    0 ≤ send.toInt - (estimateNs (sendTimestamp send &&& 0xFFFFFF) (send + delay)).toInt ∧
+    send.toInt - (estimateNs (sendTimestamp send &&& 0xFFFFFF) (send + delay)).toInt ≤ 3815 := by
+  simp only [estimateWF, instantOk, delayOk, eraEndNs_eq, Bool.and_eq_true, decide_eq_true_eq] at h
+  obtain ⟨⟨s0, s1⟩, d0, d1⟩ := h
+  have hs := toNat_of_nonneg send s0
+  have hd := toNat_of_nonneg delay d0
+  obtain ⟨hsN, hdN, hmod⟩ := wf_nat _ _ _ _ hs hd s1 d1
+  have hsum : (send + delay).toUInt64.toNat = send.toUInt64.toNat + delay.toUInt64.toNat := by
+    rw [Int64.toUInt64_add, UInt64.toNat_add, hmod]
+  have hts : (sendTimestamp send &&& 0xFFFFFF).toNat = ntpNat send.toUInt64.toNat / 16384 % 16777216 := by
+    simp only [sendTimestamp, newAbsSendTime]
+    rw [UInt64.toNat_and, UInt64.toNat_shiftRight, toNtpTime_toNat, show (0xFFFFFF : UInt64).toNat = 2 ^ 24 - 1 from rfl,
+      Bits.nat_and_mask, show (14 : UInt64).toNat % 64 = 14 from rfl, Nat.shiftRight_eq_div_pow]
+  have hn := estimate_nat _ _ hsN hdN
+  have e : (estimate (sendTimestamp send &&& 0xFFFFFF) (send + delay).toUInt64).toNat =
+      estimateNat (ntpNat send.toUInt64.toNat / 16384) (send.toUInt64.toNat + delay.toUInt64.toNat) := by
+    rw [estimate_toNat, hts, hsum, estimateNat_mod]
+  have hlt : (estimate (sendTimestamp send &&& 0xFFFFFF) (send + delay).toUInt64).toNat < 9223372036854775808 := by
+    rw [e]; exact Nat.lt_of_le_of_lt hn.1 (Nat.lt_trans hsN (by decide))
+  have he : (estimateNs (sendTimestamp send &&& 0xFFFFFF) (send + delay)).toInt =
+      estimateNat (ntpNat send.toUInt64.toNat / 16384) (send.toUInt64.toNat + delay.toUInt64.toNat) := by
+    simp only [estimateNs]
+    rw [toInt_toInt64 _ hlt, e]
+  rw [he]
+  exact int_fin _ _ _ 3815 hs hn
 end Rtp.Proofs.Ntp
